@@ -82,6 +82,10 @@ theorem compileExprH_hyb (env : CEnv) : (e : CExpr) → {st st' : HSt} → {ce :
       obtain ⟨c1, s1, h1, _, rfl⟩ := inv_stmtexpr h
       have := compileExprH_hyb env e h1
       rw [gccState_hyb]; simp only [hybCountE]; omega
+  | .seqexpr name exts args params val, st, st', ce, h => by
+      obtain ⟨cargs, s1, cv, s2, h1, h2, _, rfl⟩ := inv_seqexpr h
+      have := compileArgsH_hyb env args params h1; have := compileExprH_hyb env val h2
+      simp only [hybCountE, seqState]; omega
 theorem compileArgsH_hyb (env : CEnv) : (as : List CExpr) → (ps : List CT) → {st st' : HSt} → {r : List ILPure} →
     compileArgsH env st as ps = .ok (r, st') → st'.hyb = st.hyb + hybCountEs as
   | [], ps, st, st', r, h => by
@@ -148,6 +152,9 @@ theorem compileStmtH_hyb (env : CEnv) : (s : CStmt) → {st st' : HSt} → {eff 
   | .ret e, st, st', eff, b, h => by
       obtain ⟨c1, src, h1, _, _⟩ := invS_ret h
       simpa [hybCountS] using compileExprH_hyb env e h1
+  | .vcall name exts args params, st, st', eff, b, h => by
+      obtain ⟨cargs, h1, _, _⟩ := invS_vcall h
+      simpa [hybCountS] using compileArgsH_hyb env args params h1
   | .skip w, st, st', eff, b, h => by
       rw [(invS_skip h).2.2]; rfl
 theorem compileStmtsH_hyb (env : CEnv) : (ss : List CStmt) → {st st' : HSt} → {es : List ILEffect} → {b : List String} →
